@@ -207,14 +207,14 @@ impl Module {
     name: LyStr,
     symbol: Value,
   ) -> SymbolInsertResult {
-    let slot = self.symbols.len();
-    match self.symbols_by_name.insert(name, slot) {
-      Some(_) => Err(SymbolInsertError::SymbolAlreadyExists),
-      None => {
-        self.symbols.push_with_hooks(hooks, symbol);
-        Ok(slot)
-      },
+    if self.symbols_by_name.contains_key(&name) {
+      return Err(SymbolInsertError::SymbolAlreadyExists);
     }
+
+    let slot = self.symbols.len();
+    self.symbols_by_name.insert(name, slot);
+    self.symbols.push_with_hooks(hooks, symbol);
+    Ok(slot)
   }
 
   /// Get a symbol from this module's symbol table by name
